@@ -162,6 +162,13 @@ def run(ctx):
             x, y = rnd.randint(-500, 500), rnd.randint(-500, 500)
             if x != y:
                 cases.append(dict(BLANK, fn='uniform', a=x, b=y))
+        # populations and ranges of a single element (always included: seed-independent edge cases)
+        for v in (17, -3, 0):
+            cases += [dict(BLANK, fn='randrange', a=v, b=v + 1, c=1), dict(BLANK, fn='randint', a=v, b=v), dict(BLANK, fn='choice', pop=[v]),
+                      dict(BLANK, fn='choices', pop=[v], n=2), dict(BLANK, fn='choices', pop=[v], n=1), dict(BLANK, fn='sample', pop=[v], n=1),
+                      dict(BLANK, fn='sample', pop=[v], n=0), dict(BLANK, fn='shuffle', pop=[v]), dict(BLANK, fn='random_permutation', pop=[v]),
+                      dict(BLANK, fn='uniform', a=v * 16, b=v * 16 + 1), dict(BLANK, fn='uniform', a=v * 16 + 1, b=v * 16)]
+        cases += [dict(BLANK, fn='random_unit_vector', n=1), dict(BLANK, fn='getrandbits', n=0)]
         worlds = [(1, 0, False), (3, 1, False), (3, 1, True)] if ctx.quick else [(1, 0, False), (3, 1, False), (3, 1, True), (4, 1, False), (5, 2, True)]
         for (m, t, no_prss) in worlds:
             tag = f'rndm{m}t{t}{"n" if no_prss else "p"}'
